@@ -1,0 +1,12 @@
+// Copyright 2025 The Go MCP SDK Authors. All rights reserved.
+// Use of this source code is governed by an MIT-style
+// license that can be found in the LICENSE file.
+
+//go:build !verif
+
+package jsonrpc2
+
+// Without the "verif" build tag the verification hooks compile to nothing.
+
+func verifEnter(*Connection)                {}
+func verifSnap(*Connection, *inFlightState) {}
